@@ -13,7 +13,7 @@
 EXTENDS Faults, TraceLib, FiniteSets
 
 VARIABLES l, job, rej
-tvars == <<phase, wl, expWl, expected, pos, sync, hits, heap, l, job, rej>>
+tvars == <<phase, wl, expWl, expected, pos, sync, hits, heap, cont, repaired, l, job, rej>>
 
 T == TraceLog
 Ev == T[l]
@@ -22,12 +22,12 @@ IsEv(e) == l <= Len(T) /\ Ev.e = e /\ l' = l + 1
 TInit == CInit /\ l = 1 /\ job = 0 /\ rej = <<>> /\ InitProgress /\ TLCSet(2, <<>>)
 
 TStartClean == IsEv("Reset") /\ Ev.cls = "none" /\ StartClean(Ev.w) /\ job' = Ev.job
-TStartFault == IsEv("Reset") /\ Ev.cls # "none" /\ Len(Ev.k) > 0 /\ StartFault(Ev.w, Ev.cls) /\ job' = Ev.job
+TStartFault == IsEv("Reset") /\ Ev.cls # "none" /\ Len(Ev.k) > 0 /\ StartFault(Ev.w, Ev.cls, Ev.cont) /\ job' = Ev.job
 
 TCall == /\ IsEv("Call")
-         /\ \/ Ev.ph = "C" /\ CleanCall(Ev.i, Ev.c, Ev.r, Ev.f, Ev.d, Ev.s)
-            \/ Ev.ph = "F" /\ FaultCall(Ev.i, Ev.c, Ev.r, Ev.f, Ev.d, Ev.s)
-            \/ Ev.ph = "R" /\ RetryCall(Ev.i, Ev.c, Ev.r, Ev.f, Ev.d, Ev.s)
+         /\ \/ Ev.ph = "C" /\ CleanCall(Ev.i, Ev.c, Ev.r, Ev.f, Ev.d, Ev.s, Ev.p, Ev.redo)
+            \/ Ev.ph = "F" /\ FaultCall(Ev.i, Ev.c, Ev.r, Ev.f, Ev.d, Ev.s, Ev.p, Ev.redo)
+            \/ Ev.ph = "R" /\ RetryCall(Ev.i, Ev.c, Ev.r, Ev.f, Ev.d, Ev.s, Ev.p, Ev.redo)
          /\ UNCHANGED job
 
 TResetObjects == IsEv("ResetObjects") /\ ResetObjects(Ev.r) /\ UNCHANGED job
@@ -40,10 +40,10 @@ TEnd == IsEv("End") /\ Quiescent /\ UNCHANGED cvars /\ UNCHANGED job
 (* the disjunction of the guards of the contract actions for the event at line l (a state predicate) *)
 Consumable ==
   /\ l <= Len(T)
-  /\ CASE Ev.e = "Reset" -> IF Ev.cls = "none" THEN StartCleanOk(Ev.w) ELSE Len(Ev.k) > 0 /\ StartFaultOk(Ev.w, Ev.cls)
-       [] Ev.e = "Call" -> CASE Ev.ph = "C" -> CleanCallOk(Ev.i, Ev.c, Ev.r, Ev.f, Ev.d, Ev.s)
-                             [] Ev.ph = "F" -> FaultCallOk(Ev.i, Ev.c, Ev.r, Ev.f, Ev.d, Ev.s)
-                             [] Ev.ph = "R" -> RetryCallOk(Ev.i, Ev.c, Ev.r, Ev.f, Ev.d, Ev.s)
+  /\ CASE Ev.e = "Reset" -> IF Ev.cls = "none" THEN StartCleanOk(Ev.w) ELSE Len(Ev.k) > 0 /\ StartFaultOk(Ev.w, Ev.cls, Ev.cont)
+       [] Ev.e = "Call" -> CASE Ev.ph = "C" -> CleanCallOk(Ev.i, Ev.c, Ev.r, Ev.f, Ev.d, Ev.s, Ev.p, Ev.redo)
+                             [] Ev.ph = "F" -> FaultCallOk(Ev.i, Ev.c, Ev.r, Ev.f, Ev.d, Ev.s, Ev.p, Ev.redo)
+                             [] Ev.ph = "R" -> RetryCallOk(Ev.i, Ev.c, Ev.r, Ev.f, Ev.d, Ev.s, Ev.p, Ev.redo)
                              [] OTHER -> FALSE
        [] Ev.e = "ResetObjects" -> ResetObjectsOk(Ev.r)
        [] Ev.e = "Destroy" -> DestroyOk
@@ -67,7 +67,7 @@ TRecover ==
   /\ IF phase = "clean" \/ (Ev.e = "Reset" /\ Ev.cls = "none")
        THEN expWl' = "" /\ expected' = <<>>
        ELSE UNCHANGED <<expWl, expected>>
-  /\ UNCHANGED <<wl, sync, hits, job>>
+  /\ UNCHANGED <<wl, sync, hits, job, cont, repaired>>
 
 TNext == TContract \/ TRecover
 TSpec == TInit /\ [][TNext]_tvars
